@@ -229,9 +229,13 @@ def handle (payload impl : String) : String × String :=
             | some (a, b, what) =>
               -- dynamic bytes in the same class absorb a dynamic array before it meets the other
               -- one (the D11 region of MergeLaws.Bad: bytes, dyn x, dyn y with x ≠ y)
+              -- (the `bytes` may be stated for the class or derived during merging: either way the
+              -- class holding the two arrays resolves to dynamic bytes)
               let absorbed := what == "dynamic array elements" &&
-                parsed.any (fun (p : Nat × TE) => p.2 == .bytes &&
-                  parsed.any (fun (q : Nat × TE) => (match q.2 with | .dynamicArray e => e == a || e == b | _ => false) && sameClass p.1 q.1))
+                (parsed.any (fun (p : Nat × TE) => p.2 == .bytes &&
+                  parsed.any (fun (q : Nat × TE) => (match q.2 with | .dynamicArray e => e == a || e == b | _ => false) && sameClass p.1 q.1)) ||
+                 parsed.any (fun (q : Nat × TE) => (match q.2 with | .dynamicArray e => e == a || e == b | _ => false) &&
+                   (typeOf q.1).startsWith "bytes"))
               if absorbed then s!"FAIL C14-components-absorbed-by-bytes:{what} {a} and {b}"
               else s!"FAIL C14-components-not-unified:{what} {a} and {b}"
             | none => "ok"
